@@ -67,6 +67,11 @@ class Geometry(e2.Case):
             t = StudyTiling(W, H)
             base = t
             if subr:
+                # history on the parent object: it may have been counted / enumerated before the sub-tiling is derived
+                if w.bool("parent_queried_first"):
+                    base.count_populated_positions()
+                    for _tup in base.generate_populated_positions():
+                        break
                 t = t.compute_for_subimage(*subr)
             itt = t.image_to_tile(px, py)
             cnt = t.count_populated_positions()
@@ -129,6 +134,8 @@ class Positions(e2.Case):
         with study_patches(w, None if not w.symbolic else SymRange()):
             t = StudyTiling(W, H)
             if subr:
+                if self.witness:
+                    t.count_populated_positions()    # the parent has been queried before (history on the parent object)
                 t = t.compute_for_subimage(*subr)
         w.assume(px < t._width)
         w.assume(py < t._height)
@@ -286,6 +293,7 @@ class TileImage(e2.Case):
             t = StudyTiling(W, H)
             iw, ih = W, H
             if subr:
+                t.count_populated_positions()        # the parent has been queried before (history on the parent object)
                 t = t.compute_for_subimage(*subr)
                 iw, ih = subr[2], subr[3]
             arr = w.array("img", (ih, iw) + ((ch,) if ch else ()), dt, lo=lo)
